@@ -39,3 +39,19 @@ for _n, _t in [('c15_vlan_id', 'VlanId'), ('c15_vlan_pcp', 'VlanPcp'), ('c15_ip_
                ('c15_ip_frag_offset', 'IpFragOffset'), ('c15_ipv6_flow_label', 'Ipv6FlowLabel'), ('c15_macsec_an', 'MacsecAn'),
                ('c15_macsec_short_len', 'MacsecShortLen'), ('c15_igmp_qrv', 'igmp::Qrv')]:
     harness('h_newtypes::' + _n, ['C15'], 'complete (loop-free, full input domain)', '%s::try_new / TryFrom / From: accept set == values that fit, value preserved, error fields' % _t)
+
+
+# ---- paired bounded harnesses for V units with loop invariants (also regular bounded cross-checks) -------------------------
+harness('h_pairs::p_ext_walk_strict', ['C03', 'C07'], 'bounded (all chains <= 24 bytes, all first-header values, unwind 5)',
+        'Ipv6ExtensionsSlice::from_slice == executable mirror of the RFC 8200 walk spec (verdict, consumed, next, fragmented, every error field)',
+        bound='24 B', timeout=900)
+harness('h_pairs::p_ext_walk_lax', ['C05', 'C07', 'C01'], 'bounded (all chains <= 24 bytes, all first-header values, unwind 5)',
+        'Ipv6ExtensionsSlice::from_slice_lax == reference walk up to its first fault; stop error == that fault; iterating the result tiles the consumed bytes',
+        bound='24 B', timeout=900)
+
+# V function -> harnesses run to look for a concrete failing input when the function's proof fails on scaffolding
+PAIRS = {
+    'Ipv6ExtensionsSlice::from_slice': ['h_pairs::p_ext_walk_strict'],
+    'Ipv6ExtensionsSlice::from_slice_lax': ['h_pairs::p_ext_walk_lax'],
+    '<Iterator for Ipv6ExtensionSliceIter>::next': ['h_pairs::p_ext_walk_lax'],
+}
